@@ -104,12 +104,35 @@ func helperEstablishes(f Fact, pred func(Fact) bool, depth int) bool {
 			continue
 		}
 		n++
-		if !guardedBy(r, pred, depth+1) {
+		// pred sees the helper's facts; where an operand is a parameter of the helper, also offer the fact with the
+		// call's argument in its place (a rule that looks for "n >= 0" of ITS value finds it behind checkSize(n))
+		pred2 := func(g Fact) bool {
+			if pred(g) {
+				return true
+			}
+			g2, changed := g, false
+			for i, pp := range h.Params {
+				if i >= len(call.Call.Args) {
+					break
+				}
+				if g.X == Value(pp) {
+					g2.X, changed = call.Call.Args[i], true
+				}
+				if g.Y == Value(pp) {
+					g2.Y, changed = call.Call.Args[i], true
+				}
+			}
+			return changed && pred(g2)
+		}
+		if !guardedBy(r, pred2, depth+1) {
 			return false
 		}
 	}
 	return n > 0
 }
+
+// Value is ssa.Value (kept local to this file's helpers for readability).
+type Value = ssa.Value
 
 // VariadicArgs unpacks the slice passed for a variadic parameter when it was
 // built at the call site ([n]T alloc + stores + slice). Returns nil, false
